@@ -210,6 +210,9 @@ def check_C04(A, R, tier):
     H = A.handler_runs()
     T = A.transitions()
     reach = A.reach()
+    # R4.10: a renamed multi-output job is recognised by the outputs it shares with its former id, wherever they stand in the id
+    from rules_compare import rule_no_positional_pairing_of_id_pieces
+    rule_no_positional_pairing_of_id_pieces(A, R, "R4.10")
     sk = skip_kind(A)
     cleanup_kinds = set(A.kind_of(s) for s in C["CleanupOffered"])
     skippable = set(A.kind_of(s) for s in (C["Finished"] - C["FailedLike"]) if reachable_without_running(A, s) and s in reach)
